@@ -404,6 +404,40 @@ def judge(check, name, replay, key_prefix):
     return 'known' if r == 'known' else 'violation'
 
 
+def lemma_phase(check, pool, Task, names, seeds=2):
+    """prove the named lemmas (portfolio of seeds); -> (proved set, names of needed lemmas that failed)"""
+    tasks = [Task(f'lemma:{n}#{s}', lemma, (n,), {'seed': s + check.seed, 'timeout': 240}, timeout=300, group='lemma:' + n)
+             for n in names for s in range(seeds)]
+    res = pool(tasks)
+    proved = set()
+    for n in names:
+        r = res.get('lemma:' + n, {'status': 'error', 'detail': 'no result'})
+        if r['status'] == 'unsat':
+            proved.add(n)
+        if n in ('E1down', 'E1up'):
+            continue
+        if r['status'] == 'sat':
+            # a refuted lemma is not a violation: the decomposition may have changed; dependent queries go on
+            # without it and the exact witness search decides
+            check.record('lemma:' + n, dict(r, status='unsat-not-established', detail=f"lemma refuted, model {r.get('model')}"), 'lemma')
+            check.log(f"lemma {n} REFUTED (model {r.get('model')}); kernel queries run without it")
+        else:
+            check.record('lemma:' + n, r, 'lemma')
+    if 'E1down' in names:
+        e1 = [res.get('lemma:E1down', {}), res.get('lemma:E1up', {})]
+        nm = 'lemma:E1 (per-edge contribution == half-open rule, either convention)'
+        if any(r.get('status') == 'unsat' for r in e1):
+            check.record(nm, [r for r in e1 if r.get('status') == 'unsat'][0], 'lemma')
+        else:
+            check.record(nm, {'status': 'unsat-not-established', 'detail': f"both conventions failed: {[r.get('status') for r in e1]}",
+                              'solver_s': sum(r.get('solver_s') or 0 for r in e1)}, 'lemma')
+    failed = [n for n in names if n not in proved and n not in ('E1down', 'E1up', 'S0')]
+    if 'E1down' in names and not pick_rule(proved):
+        failed.append('E1')
+    check.extra['lemmas_proved'] = sorted(proved)
+    return proved, failed
+
+
 # ------------------------------------------------------------------------------------------------ driver
 QUICK = {
     'multipoint': [0, 1, 2, 4],
@@ -433,35 +467,7 @@ def run_kernels(check, pool, Task):
         'symbolic x symbolic products are an uninterpreted function constrained only by instances of lemmas proved in this run',
         'prange executed sequentially',
     ]
-    # ---- phase A: lemmas
-    names = ['LS', 'L2', 'LB', 'E1down', 'E1up', 'E2', 'E34', 'S0']
-    tasks = [Task(f'lemma:{n}#{s}', lemma, (n,), {'seed': s + check.seed, 'timeout': 240}, timeout=300, group='lemma:' + n)
-             for n in names for s in range(seeds)]
-    res = pool(tasks)
-    proved = set()
-    for n in names:
-        r = res.get('lemma:' + n, {'status': 'error', 'detail': 'no result'})
-        if r['status'] == 'unsat':
-            proved.add(n)
-        if n in ('E1down', 'E1up'):
-            continue
-        if r['status'] == 'sat':
-            # a refuted lemma is not a violation: the decomposition may have changed; dependent queries go on
-            # without it and the exact witness search decides
-            check.record('lemma:' + n, dict(r, status='unsat-not-established', detail=f"lemma refuted, model {r.get('model')}"), 'lemma')
-            check.log(f"lemma {n} REFUTED (model {r.get('model')}); kernel queries run without it")
-        else:
-            check.record('lemma:' + n, r, 'lemma')
-    e1 = [res.get('lemma:E1down', {}), res.get('lemma:E1up', {})]
-    if any(r.get('status') == 'unsat' for r in e1):
-        best = [r for r in e1 if r.get('status') == 'unsat'][0]
-        check.record('lemma:E1 (per-edge contribution == half-open rule, either convention)', best, 'lemma')
-    else:
-        check.record('lemma:E1 (per-edge contribution == half-open rule, either convention)',
-                     {'status': 'unsat-not-established', 'detail': f"both conventions failed: {[r.get('status') for r in e1]}",
-                      'solver_s': sum(r.get('solver_s') or 0 for r in e1)}, 'lemma')
-    failed_lemmas = [n for n in ('LS', 'L2', 'LB', 'E2', 'E34') if n not in proved] + ([] if pick_rule(proved) else ['E1'])
-    check.extra['lemmas_proved'] = sorted(proved)
+    proved, failed_lemmas = lemma_phase(check, pool, Task, ['LS', 'L2', 'LB', 'E1down', 'E1up', 'E2', 'E34', 'S0'], seeds)
     # ---- phase B: kernel queries
     tasks = []
     for k in plan['multipoint']:
